@@ -42,11 +42,13 @@ class C10(Property):
                     else:
                         f = bytes(rng.getrandbits(8) for _ in range(rng.choice([0, 1, 19, 25]))).hex() or "-"
                 else:
+                    # source: the node's own MAC, a host behind it, or an address seen before behind ANOTHER node (a host that moved)
+                    srcmac = nu.mac(rng.choice([i, i, i, 40, 41, rng.randrange(1, n + 1)]))
                     if r < 0.6:
                         j = rng.randrange(1, n + 2)
-                        f = nu.eth_frame(nu.mac(j), nu.mac(i), rng.choice([None, None, 0, 1, 0x67]))
+                        f = nu.eth_frame(nu.mac(j), srcmac, rng.choice([None, None, 0, 1, 0x67]))
                     elif r < 0.8:
-                        f = nu.eth_frame(b"\xff" * 6, nu.mac(i))
+                        f = nu.eth_frame(b"\xff" * 6, srcmac)
                     elif r < 0.9:
                         f = nu.eth_frame(nu.mac(i), nu.mac(i))
                     else:
@@ -98,6 +100,11 @@ class C10(Property):
                 dsts = [d for d, _ in sent]
                 if len(set(dsts)) != len(dsts):
                     return "frame sent twice to the same peer at op %d" % i
+                if mode in ("tap-switch", "tap-normal", "tap-hub") and frame.startswith("ffffffffffff") and len(frame) >= 28:
+                    # a broadcast frame in a flooding mode is selected for every peer, whatever has been learned
+                    want = [k for k in range(1, nnodes + 1) if k != src]
+                    if sorted(dsts) != want:
+                        return "%s: broadcast frame read at node %d was sent to %s, flooding selects every peer %s" % (mode, src, sorted(dsts), want)
                 if mode == "tun-router" and len(frame) >= 40 and frame[0] == "4":
                     # router mode: the peer selected for a packet is the one with the most specific claim, nobody otherwise
                     dst = bytes.fromhex(frame)[16:20]
